@@ -437,4 +437,87 @@ def rule_f(ctx: Ctx) -> None:
                 'prefix test sees has no `..` segments.')
 
 
-RULES = [rule_a, rule_b, rule_c, rule_d, rule_e, rule_f]
+def rule_g(ctx: Ctx) -> None:
+    """The base URL of the referencing schema travels with every location down to the constructor of the child schema: a
+    function on the fetch chain that owns a base URL (its own `base_url` parameter, or the referencing schema as a parameter)
+    hands it to the next function of the chain.  Without it the child resource falls back to the settings' base URL or, under
+    'sandbox', to the directory of the location itself - every location is then inside "its" sandbox."""
+    rule = 'C12.g'
+    idx = ctx.idx
+    loader = idx.cls('xmlschema.loaders.SchemaLoader')
+    schema = idx.cls('xmlschema.validators.schemas.XMLSchemaBase')
+    # fetch chain: functions with a base_url parameter that reach `self.schema_class(…base_url…)`
+    chain: dict[str, list] = {}
+    ls = loader.find_method('load_schema')
+    if ls is None or 'base_url' not in ls.params:
+        raise AnalysisError('missing anchor SchemaLoader.load_schema(…, base_url, …)')
+    sc = [c for c in calls(ls.node) if text(c.func) == 'self.schema_class']
+    kw = [get_arg(c, None, 'base_url') for c in sc]
+    ok = bool(sc) and all(k is not None and 'base_url' in [n.id for n in ast.walk(k) if isinstance(n, ast.Name)] for k in kw)
+    ctx.ob(rule, 'SchemaLoader.load_schema builds the child schema with the base URL it was given', ls.loc(sc[0]) if sc else ls.loc(), ok,
+           '' if ok else 'schema_class(…) is not given base_url: the child resource resolves and confines itself against its own location',
+           key='load_schema|schema_class|base_url')
+    chain['load_schema'] = [ls]
+    changed = True
+    while changed:
+        changed = False
+        for c in list(idx.subclasses(loader)) + list(idx.subclasses(schema)):
+            for name, m in c.methods.items():
+                if isinstance(m.node, ast.Lambda) or 'base_url' not in m.params or m in chain.get(name, []):
+                    continue
+                if any(isinstance(k.func, ast.Attribute) and k.func.attr in chain for k in calls(m.node)):
+                    chain.setdefault(name, []).append(m)
+                    changed = True
+    ctx.floor(rule, 'functions on the schema fetch chain', sum(len(v) for v in chain.values()), 6)
+
+    def callee_for(f, c):
+        recv = text(c.func.value)
+        cands = chain[c.func.attr]
+        if recv == 'self' and f.cls is not None:
+            m = f.cls.find_method(c.func.attr)
+            return m if m in cands else None
+        if recv == 'super()' and f.cls is not None:
+            for k in f.cls.mro()[1:]:
+                if c.func.attr in k.methods:
+                    return k.methods[c.func.attr] if k.methods[c.func.attr] in cands else None
+            return None
+        if recv.endswith('loader'):
+            return next((m for m in cands if m.cls is loader), None) or next((m for m in cands if m.cls is not None and loader in m.cls.mro()), None)
+        return next((m for m in cands if m.cls is not None and schema in m.cls.mro()), None)
+
+    n = 0
+    for f in idx.iter_functions():
+        if isinstance(f.node, ast.Lambda) or f.module.name.startswith('xmlschema.testing'):
+            continue
+        own = 'base_url' in f.params
+        sparams = [p for p in f.params if p in ('schema', 'target_schema')]
+        if not own and not sparams:
+            continue
+        # locals bound to the base URL of the referencing schema
+        derived = {'base_url'} if own else set()
+        for st in walk_no_nested(f.node):
+            if isinstance(st, ast.Assign) and len(st.targets) == 1 and isinstance(st.targets[0], ast.Name) \
+                    and text(st.value) in [f'{p}.base_url' for p in sparams]:
+                derived.add(st.targets[0].id)
+        for c in calls(f.node):
+            if not (isinstance(c.func, ast.Attribute) and c.func.attr in chain):
+                continue
+            m = callee_for(f, c)
+            if m is None:
+                continue
+            ctx.analysed(f.qualname)
+            ps = [p for p in m.params if p not in ('self', 'cls')]
+            a = get_arg(c, ps.index('base_url'), 'base_url')
+            n += 1
+            good = a is not None and (any(isinstance(x, ast.Name) and x.id in derived for x in ast.walk(a))
+                                      or any(text(x) in [f'{p}.base_url' for p in sparams] for x in ast.walk(a)))
+            ctx.ob(rule, f'{f.qualname.split(".", 1)[-1]}: `{text(c.func)}(…)` is given the base URL of the referencing schema', f.loc(c), good,
+                   '' if good else f'base_url argument: {text(a) if a is not None else "not passed"} - the location is loaded with the fallback base '
+                   '(settings.base_url, else the directory of the location itself): with allow=\'sandbox\' an import of any local path is "inside" '
+                   'its own sandbox', key=f'{f.qualname}|forward|{c.func.attr}')
+    ctx.floor(rule, 'base_url forwarding call sites on the fetch chain', n, 7)
+    ctx.explain('C12.g: fixed point of the methods of SchemaLoader/XMLSchemaBase that take base_url and reach '
+                'schema_class(base_url=…); every call of a chain member from a function owning a base URL must forward it.')
+
+
+RULES = [rule_a, rule_b, rule_c, rule_d, rule_e, rule_f, rule_g]
